@@ -275,12 +275,37 @@ def check(res, drv_resp, cert_resp, case, rg, calls, used, size, fpots, pots, r_
     res.extra['worst_gap_over_scale'] = max(res.extra.get('worst_gap_over_scale', 0.0), abs(gap) / (abs(D) + 1.0))
     maxmsg = max((float(np.abs(m.values).max()) for m in rg.messages.values()), default=0.0)
     res.extra['max_abs_message'] = max(res.extra.get('max_abs_message', 0.0), maxmsg if math.isfinite(maxmsg) else 1e308)
+    # a -inf cell in the potential of a NON-MAXIMAL region, one that has a parent (recorded finding: the messages overflow)
+    def _nparents(c_):
+        k_ = next((k for k in rg.parents if tuple(k) == tuple(rggen.fresh_clique(c_))), None)
+        return len(rg.parents[k_]) if k_ is not None else 0
+    shared_kill = any(any(v == -math.inf for v in fl_) and _nparents(c_) >= 1 for c_, fd_, fl_ in fpots)
     if not converged:
         res.violation('failing-input',
                       f'convergence test: hazan_peng_shashua with damping {damping} did not reach feasibility 1e-6*total within {used} sweeps (cap {cap}): '
-                      f'mean edge disagreement {last["pf"]!r}, total {total}, largest |message| {maxmsg:.3e}, cliques {cl}', rp,
-                      key='hps:no-convergence' + (':low-damping' if damping <= 0.1 else ':diverged-messages' if not (maxmsg < rggen.DIVERGED) else ''))
+                      f'mean edge disagreement {last["pf"]!r}, total {total}, largest |message| {maxmsg:.3e}, cliques {cl}'
+                      + (' (the potential of a non-maximal region has a -inf cell)' if shared_kill else ''), rp,
+                      key='hps:no-convergence' + (':impossible-cell-on-shared-subregion' if shared_kill else ':low-damping' if damping <= 0.1 else ':diverged-messages' if not (maxmsg < rggen.DIVERGED) else ''))
         ok = False          # the optimality clauses are about the converged state: nothing further is claimed for this run
+    killed = [(c_, fd_, [i for i, v in enumerate(fl_) if v == -math.inf]) for c_, fd_, fl_ in fpots if any(v == -math.inf for v in fl_)]
+    if killed:
+        # an impossible cell: the certificate (entropies, 0*log 0, strictly positive beliefs) is stated for finite potentials; what is checked
+        # here is convergence / consistency (above) and that the impossible cell carries no mass in the table of its clique
+        res.count('impossible cell: convergence, consistency and zero mass checked; certificate not evaluated')
+        if ok:
+            for c_, fd_, idxs in killed:
+                key_ = next((k for k in tab if tuple(k) == tuple(rggen.fresh_clique(c_))), None)
+                if key_ is None:
+                    continue
+                attrs_t, vals_t = tab[key_]
+                if list(attrs_t) != [a for a, _ in fd_]:
+                    continue        # table laid out in another attribute order than the potential: cell indices do not correspond
+                for i in idxs:
+                    if abs(vals_t[i]) > 1e-9 * total:
+                        res.violation('failing-input', f'hazan_peng_shashua: cell {i} of clique {list(c_)} has potential -inf but carries mass {vals_t[i]!r} (total {total})',
+                                      rp, key='hps:mass-on-impossible-cell')
+                        return
+        return
     if ok and lag > 1e-9 * total and maxmsg < 1e12:
         res.violation('correspondence', f'hazan_peng_shashua: returned tables differ from total*softmax(pot + sum child messages - sum parent messages) '
                       f'by {lag!r} (total {total})', dict(rp, stream='C17.lagrangian'), key='hps:lagrangian-form')
@@ -409,6 +434,11 @@ def run(res, drv, tier, seed):
                 v_[r.randrange(len(v_))] = Fr(0)
                 pots[i_] = (c_, fd_, v_)
                 KILLED[0] += 1
+                k_ = next((k for k in probe.parents if tuple(k) == tuple(rggen.fresh_clique(c_))), None)
+                if tier == 'quick' and k_ is not None and len(probe.parents[k_]) >= 1:
+                    # a -inf cell on a non-maximal region: the recorded non-convergence is not pursued to the full cap in the quick tier
+                    ccap = min(ccap, 400)
+                    caps[-1] = ccap
         fpots = rggen.pots_float(pots)
         pre = rggen.pots_float(rggen.gen_pots(r, dom, list(probe.cliques))) if (generated and len(work) % 3 == 2) else None
         try:
